@@ -95,4 +95,4 @@ Definition accept_field (W : N) (f : field) : bool :=
 (** with [debug] the emitted [fmt] calls [self.<field>()] for every field: rustc rejects the
     expansion when a field has no getter or its getter needs an index (typing model) *)
 Definition accept_decl (d : decl) : bool :=
-  base_ok (d_W d) && forallb (accept_field (d_W d)) (d_fields d) && debug_ok d.
+  base_ok (d_W d) && forallb (accept_field (d_W d)) (d_fields d) && debug_ok d && default_ok d.
